@@ -127,3 +127,88 @@ Proof.
     rewrite E. cbn [bind]. eauto. }
   rewrite E3. cbn [bind]. eauto.
 Qed.
+
+(* ---------------- what a successful analysis guarantees: no unresolved user type at any depth ---------------- *)
+(* the generator chooses between enum and struct code by the resolved kind of a user type (CType), for members,
+   vector elements, map keys AND values, array elements, parameters and results *)
+Fixpoint resolved (v : vty) : bool :=
+  match v with
+  | VBase _ _ => true
+  | VName _ c => match c with CNone => false | _ => true end
+  | VVec k => resolved k
+  | VMap k w => resolved k && resolved w
+  | VArr k _ => resolved k
+  end.
+
+Definition fun_resolved (f : func) : bool :=
+  forallb (fun a => resolved (a_ty a)) (f_args f) && match f_ret f with None => true | Some t => resolved t end.
+Definition module_resolved (m : module) : bool :=
+  forallb (fun s => forallb (fun mb => resolved (sm_ty mb)) (st_mb s)) (m_structs m) &&
+  forallb (fun i => forallb fun_resolved (if_funcs i)) (m_ifaces m).
+
+Lemma check_tname_resolved : forall m v v', check_tname m v = Ok v' -> resolved v' = true.
+Proof.
+  intros m. induction v as [b u | s c | k IHk | k IHk w IHw | k IHk l]; intros v' H; cbn [check_tname] in H.
+  - inversion H; reflexivity.
+  - destruct (find_tname m _); inversion H; reflexivity.
+  - destruct (check_tname m k) as [k'| |] eqn:E; cbn [bind] in H; try discriminate. inversion H; subst. cbn [resolved]. eauto.
+  - destruct (check_tname m k) as [k'| |] eqn:E; cbn [bind] in H; try discriminate.
+    destruct (check_tname m w) as [w'| |] eqn:E2; cbn [bind] in H; try discriminate. inversion H; subst.
+    cbn [resolved]. rewrite (IHk _ eq_refl), (IHw _ eq_refl). reflexivity.
+  - destruct (check_tname m k) as [k'| |] eqn:E; cbn [bind] in H; try discriminate. inversion H; subst. cbn [resolved]. eauto.
+Qed.
+
+Lemma map_res_forallb : forall {A B} (f : A -> res B) (P : B -> bool), (forall x y, f x = Ok y -> P y = true) ->
+  forall l l', map_res f l = Ok l' -> forallb P l' = true.
+Proof.
+  intros A B f P Hf l l' H. apply forallb_forall. intros y Hy.
+  destruct (map_res_in f l l' H y Hy) as [x [_ E]]. eapply Hf; eauto.
+Qed.
+
+Theorem analyze_resolves : forall m m', analyze m = Ok m' -> module_resolved m' = true.
+Proof.
+  intros m m' H. unfold analyze in H.
+  destruct (map_res _ (m_structs m)) as [sts1| |] eqn:E1; cbn [bind] in H; try discriminate.
+  destruct (map_res _ sts1) as [sts2| |] eqn:E2; cbn [bind] in H; try discriminate.
+  destruct (map_res _ (m_ifaces m)) as [ifs| |] eqn:E3; cbn [bind] in H; try discriminate.
+  inversion H; subst; clear H. unfold module_resolved. cbn [m_structs m_ifaces]. apply andb_true_iff; split.
+  - eapply map_res_forallb; [|exact E2]. intros s s' K. cbv beta in K.
+    destruct (map_res (analyze_member m) (st_mb s)) as [mbs| |] eqn:K1; cbn [bind] in K; try discriminate. inversion K; subst. cbn [st_mb].
+    eapply map_res_forallb; [|exact K1]. intros x y Q. unfold analyze_member in Q.
+    destruct (check_tname m (sm_ty x)) as [ty| |] eqn:Et; cbn [bind] in Q; try discriminate. inversion Q; subst. cbn [sm_ty].
+    eapply check_tname_resolved; eauto.
+  - eapply map_res_forallb; [|exact E3]. intros i i' K. cbv beta in K.
+    destruct (map_res (analyze_fun m) (if_funcs i)) as [fs| |] eqn:K1; cbn [bind] in K; try discriminate. inversion K; subst. cbn [if_funcs].
+    eapply map_res_forallb; [|exact K1]. intros f f' Q. unfold analyze_fun in Q.
+    destruct (map_res (analyze_arg m) (f_args f)) as [args| |] eqn:Ea; cbn [bind] in Q; try discriminate.
+    unfold fun_resolved.
+    assert (Ha : forallb (fun a => resolved (a_ty a)) args = true).
+    { eapply map_res_forallb; [|exact Ea]. intros a a' R. unfold analyze_arg in R.
+      destruct (check_tname m (a_ty a)) as [ty| |] eqn:Et; cbn [bind] in R; try discriminate. inversion R; subst. cbn [a_ty].
+      eapply check_tname_resolved; eauto. }
+    destruct (f_ret f) as [t|].
+    + destruct (check_tname m t) as [t'| |] eqn:Et; cbn [bind] in Q; try discriminate. inversion Q; subst. cbn [f_args f_ret].
+      rewrite Ha. eapply check_tname_resolved; eauto.
+    + cbn [bind] in Q. inversion Q; subst. cbn [f_args f_ret]. rewrite Ha. reflexivity.
+Qed.
+
+Theorem parse_bytes_resolved : forall input m, parse_bytes input = OOk m -> module_resolved m = true.
+Proof.
+  intros input m H. unfold parse_bytes, parse_bytes_gen in H.
+  destruct (tokens_of input) as [ts| |]; try discriminate.
+  unfold parse_tokens_gen in H.
+  destruct (file_loop true (parse_fuel ts) empty_file ts) as [fl| |]; try discriminate.
+  destruct (fl_includes fl); try discriminate. destruct (fl_more fl); try discriminate.
+  destruct (fl_primary fl) as [m0|].
+  - destruct (analyze m0) as [m1| |] eqn:E; try discriminate. inversion H; subst. eapply analyze_resolves; eauto.
+  - inversion H; subst. reflexivity.
+Qed.
+
+(* the witness the statement needs: a map whose VALUE is an enum, a vector of a struct, an array of an enum *)
+Example resolved_instance :
+  match parse_bytes (bs "module M { enum Color { RED }; struct In { 0 require int x; }; struct S { 0 require map<string, Color> m; 1 optional vector<In> v; 2 optional Color a[2]; 3 optional map<Color, vector<In>> d; }; interface I { Color f(map<int, Color> a, out vector<Color> b); }; };") with
+  | OOk m => Some (map (fun mb => sm_ty mb) (st_mb (nth 1 (m_structs m) {| st_name := []; st_mb := [] |})))
+  | _ => None
+  end = Some [ VMap (VBase BString false) (VName (bs "Color") CEnum); VVec (VName (bs "In") CStruct);
+               VArr (VName (bs "Color") CEnum) 2; VMap (VName (bs "Color") CEnum) (VVec (VName (bs "In") CStruct)) ].
+Proof. vm_compute. reflexivity. Qed.
